@@ -410,3 +410,10 @@ V('c5-bracket-unchecked', CAT, "                    f = stack.pop()\n           
 V('c5-end-star-unpack', CAT, "            x, f, y = stack\n            return Functor(x, f, y)", "            x, f, *y = stack\n            return Functor(x, f, y[-1])", ['C05'])
 V('c5-items-reordered', CAT, "        return (self.kv1, self.kv2, self.kv3)", "        return (self.kv1, self.kv3, self.kv2)", ['C05'])
 V('c5-silent-rename', CAT, "                    f = stack.pop()\n                    x = stack.pop()\n                    assert stack.pop() in \"(<\"\n                    stack.append(Functor(x, f, y))", "                    slash = stack.pop()\n                    left = stack.pop()\n                    assert stack.pop() in \"(<\"\n                    stack.append(Functor(left, slash, y))", ['C05'], expect='silent')
+
+# ---------------------------------------------------------------- more parsing.h
+V('h-argmax-from-min', H, "T max_val = std::numeric_limits<T>::lowest();", "T max_val = std::numeric_limits<T>::min();", ['C01'])
+V('h-argmax-inverted', H, "if (max_val <= *from)", "if (max_val >= *from)", ['C01'])
+V('h-argmax-skips-last', H, "        while (from != to)\n        {\n            if (max_val <= *from)", "        while (from + 1 != to)\n        {\n            if (max_val <= *from)", ['C01'])
+# (swapping the pair's components does not compile: not a variant)
+V('h-silent-argmax-strict', H, "if (max_val <= *from)", "if (max_val < *from)", ['C01'], expect='silent')
